@@ -19,7 +19,7 @@ func init() {
 		ID:          "C12",
 		Level:       "other",
 		Run:         runC12,
-		Explanation: "E-COST: the body of MVP-1's (and MVP-2's, MVP-3's) instruction loop is interpreted to terms with the helper methods inlined; for every path the increments of the cycle counter are extracted and compared with the documented model — fetch (MemoryAccess; L1Access or MemoryAccess on MVP-2/3) + decode + [MemoryAccess iff the instruction reads memory] + InstructionType.Cycles() and then, unless the instruction returned, RegisterAccess iff RegisterChange else MemoryAccess iff MemoryChange (L1Access on a cache hit for MVP-3) — and nothing else writes the counter. R12.2: MVP-2's model equals MVP-1's term by term except the fetch term, which is L1Access or MemoryAccess with L1Access <= MemoryAccess. R12.3: on all twelve variants the returned counter is only ever incremented by non-negative amounts and every iteration of the main loop adds at least one positive constant. R12.4: Cycles() is total and returns constants >= 1. R12.5: the latency table is positive and ordered. Not decided: independence of timing from operand values (an information-flow property through maps, closures and coroutines; declined) and the 'instructions / issue width' lower bound (needs bus-capacity reasoning). R12.7 MemoryRead/MemoryWrite return exactly the addresses the instruction accesses (the latency model charges a memory read iff MemoryRead is non-empty). R12.9 the stepping/delay primitive of MVP-6.x..8.0 (common/coroutine) equals its reference model operation by operation (a delay of n idles exactly n steps). R12.8 no control condition of the timing layer (variants, latency table) that changes a counter or leaves a step reads an operand value (register content, result value, data byte): a structural necessary condition of value-independence.",
+		Explanation: "E-COST: the body of MVP-1's (and MVP-2's, MVP-3's) instruction loop is interpreted to terms with the helper methods inlined; for every path the increments of the cycle counter are extracted and compared with the documented model — fetch (MemoryAccess; L1Access or MemoryAccess on MVP-2/3) + decode + [MemoryAccess iff the instruction reads memory] + InstructionType.Cycles() and then, unless the instruction returned, RegisterAccess iff RegisterChange else MemoryAccess iff MemoryChange (L1Access on a cache hit for MVP-3) — and nothing else writes the counter. R12.2: MVP-2's model equals MVP-1's term by term except the fetch term, which is L1Access or MemoryAccess with L1Access <= MemoryAccess. R12.3: on all twelve variants the returned counter is only ever incremented by non-negative amounts and every iteration of the main loop adds at least one positive constant. R12.4: Cycles() is total and returns constants >= 1. R12.5: the latency table is positive and ordered. Not decided: independence of timing from operand values (an information-flow property through maps, closures and coroutines; declined) and the 'instructions / issue width' lower bound (needs bus-capacity reasoning). R12.7 MemoryRead/MemoryWrite return exactly the addresses the instruction accesses (the latency model charges a memory read iff MemoryRead is non-empty). R12.9 the stepping/delay primitive of MVP-6.x..8.0 (common/coroutine) equals its reference model operation by operation (a delay of n idles exactly n steps). R12.8 no control condition of the timing layer (variants, latency table) that changes a counter or leaves a step reads an operand value (register content, result value, data byte): a structural necessary condition of value-independence. R12.10 the flags of an Execution that select the write-back latency (RegisterChange, MemoryChange) are one constant pair per opcode on every successful outcome of Run.",
 		Assumptions: []string{"the latency model is the README's: fetch, decode, optional memory read, execute, write-back"},
 		Trusted:     []string{"go/types", "term engine", "the model transcription in checker/c12.go"},
 	})
@@ -405,6 +405,8 @@ func runC12(r *Run) {
 	// R12.7: the optional memory-read latency is charged exactly for the instructions that read memory
 	// R12.9: the delay primitive every latency of MVP-6.x..8.0 is counted with equals its reference
 	// (ExecuteWithCheckpointAfter idles exactly `cycles` steps; a suspended coroutine runs one continuation per step)
+	r.floor("R12.10", 45)
+	ruleLatencyClassConstant(r, "R12.10")
 	r.floor("R12.9", 10)
 	ruleCoroutineConformance(r, "R12.9")
 	r.floor("R12.7", 90)
